@@ -526,7 +526,8 @@ def directed(rng):
     g.ops += [("DRAIN",), ("W", 0), ("W", 0), ("W", 0)]
     g.leave(0)                     # recovers: LOST marker, the never written ENTRY and its EXIT
     g.leaf(0)
-    mk("alloc-fail-two-consecutive", 3, 1, 1, g.finish(nw=1), ["per-buffer=3", "alloc-fail-2-consecutive", "lost-marker"])
+    mk("alloc-fail-two-consecutive", 2, 1, 1, g.finish(nw=1), ["per-buffer=2", "alloc-fail-2-consecutive", "lost-marker",
+                                                               "parent-entry-refused"])
     return cases
 
 
